@@ -97,6 +97,9 @@ func (in *Interp) installStubs6() {
 		}
 		return smt.FPVal(x)
 	}
+	S["math.FMA"] = func(in *Interp, a []Value) Value {
+		return st.FPConst(math.FMA(conc(in, a[0], "math.FMA"), conc(in, a[1], "math.FMA"), conc(in, a[2], "math.FMA")))
+	}
 	S["math.Frexp"] = func(in *Interp, a []Value) Value {
 		f, e := math.Frexp(conc(in, a[0], "math.Frexp"))
 		return Tuple{st.FPConst(f), st.BVConstI(int64(e), 64)}
@@ -106,16 +109,26 @@ func (in *Interp) installStubs6() {
 		return Tuple{st.FPConst(i), st.FPConst(f)}
 	}
 	S["math.Ldexp"] = func(in *Interp, a []Value) Value {
-		return st.FPConst(math.Ldexp(conc(in, a[0], "math.Ldexp"), in.concInt(a[1], "exp")))
+		return st.FPConst(math.Ldexp(conc(in, a[0], "math.Ldexp"), in.concIntC(a[1])))
 	}
 	S["math.Lgamma"] = func(in *Interp, a []Value) Value {
 		l, s := math.Lgamma(conc(in, a[0], "math.Lgamma"))
 		return Tuple{st.FPConst(l), st.BVConstI(int64(s), 64)}
 	}
 	S["math.Jn"] = func(in *Interp, a []Value) Value {
-		return st.FPConst(math.Jn(in.concInt(a[0], "n"), conc(in, a[1], "math.Jn")))
+		return st.FPConst(math.Jn(in.concIntC(a[0]), conc(in, a[1], "math.Jn")))
 	}
 	S["math.Yn"] = func(in *Interp, a []Value) Value {
-		return st.FPConst(math.Yn(in.concInt(a[0], "n"), conc(in, a[1], "math.Yn")))
+		return st.FPConst(math.Yn(in.concIntC(a[0]), conc(in, a[1], "math.Yn")))
 	}
+}
+
+// concIntC: a concrete int, concretizing a symbolic one to a representative.
+func (in *Interp) concIntC(v Value) int {
+	t := v.(*smt.Term)
+	if !t.IsConst() {
+		t = in.Ctx.Concretize(t)
+		in.StubHits["concretized: integer argument of a math function"]++
+	}
+	return int(smt.Signed(t.Val, t.Sort.W).Int64())
 }
